@@ -161,11 +161,15 @@ theorem s_resetState : SafeM cap (modH resetState) := by
 
 theorem s_setActiveModem (opmod modulation : Nat) : SafeM cap (modH (setActiveModem opmod modulation)) := by
   apply SafeI_modH; intro h hi
+  have hr : ∀ h, HInv cap h → HInv cap (resetState h) := fun h hi => ⟨hi.1, hi.2.1, Nat.zero_le _⟩
+  have hi' : ∀ (c : Prop) [Decidable c] (x : Handle), HInv cap x → HInv cap (if c then resetState x else x) := by
+    intro c _ x hx; split
+    · exact hr _ hx
+    · exact hx
+  have hset : ∀ x : Handle, HInv cap x → HInv cap { x with activeModem := modulation, opmod := opmod } :=
+    fun x hx => ⟨hx.1, hx.2.1, hx.2.2⟩
   unfold setActiveModem
-  dsimp only
-  split
-  · exact ⟨hi.1, hi.2.1, Nat.zero_le _⟩
-  · exact hi
+  exact hset _ (hi' _ _ (hi' _ _ hi))
 
 macro "safe_fsk" : tactic => `(tactic| repeat (first
     | exact s_batch _ _ | exact s_txCb | exact s_getRssi | exact s_resetState
